@@ -200,6 +200,8 @@ def shard_entry(argv):
         cov = LineCov(REPO, anchors).start()
     if sys.flags.optimize:
         ctx.count("shards-run-with-assertions-stripped (python -O)")
+    if "no_debug_ranges" in getattr(sys, "_xoptions", {}):
+        ctx.count("shards-run-without-instruction-positions (python -X no_debug_ranges)")
     nthreads = mod.META.get("threads", 0) if (k % 8 == 3 and not os.environ.get("VERIF_NO_THREADS")) else 0
     extra = []
     try:
@@ -308,6 +310,8 @@ def run_check(prop, tier, replay=None):
         # configuration dimension: every fourth shard runs the library with assertions stripped (python -O); the library uses
         # assert statements on its paths, the properties do not depend on the interpreter's optimisation mode
         opt = ["-O"] if (k % 4 == 1 and not os.environ.get("VERIF_NO_O")) else []
+        if meta.get("no_debug_ranges") and k % 8 == 6:
+            opt = ["-X", "no_debug_ranges"]  # python keeps no column positions for instructions
         p = subprocess.Popen(
             [PY, "-B"] + opt + ["-m", "vmon.core", "--shard", prop, tier, str(seed), str(k), str(nsh), out],
             cwd=VERIF, env=env, stdout=subprocess.PIPE, stderr=subprocess.STDOUT,
